@@ -85,6 +85,8 @@ def step(w, op, to):
 
 
 def w_transitions(idx):
+    import gc
+    gc.freeze()               # TLC's graph is not garbage: keep the collections of id_only_observer cheap
     out, n = [], 0
     T, access = G["T"], G["access"]
     for i in idx:
@@ -122,7 +124,29 @@ def w_transitions(idx):
         n += 1
         if hung:
             break             # a call that does not return: reported once per worker, do not wait for every other case
+        if not results:
+            for clause, det in id_only_observer(w):
+                out.append((f"{t['op']['name']}:{clause}", det, {"kind": "history", "ops": ops, "expected_to": t["to"], "observer": "keeps ids only"}))
     return n, out
+
+
+def id_only_observer(w):
+    """The registry is the library's promise that an id is enough: a caller that keeps only the ids (no node object)
+    must find every registered node again, with the same name and the same children."""
+    import gc
+    st = w.pi(FIELDS)
+    ids = [x.id for x in w.nodes]
+    w.nodes.clear()
+    w.idx.clear()
+    gc.collect()
+    bad = []
+    for i in sorted(st["store"]):
+        inst = Node.get_node_instance(ids[i - 1])
+        if inst is None:
+            bad.append(("live-node-unregistered:caller-keeps-only-the-id", f"node {i} was registered and never deleted, but is gone once no reference to it is held"))
+        elif inst.name != st["name"][i - 1] or [c.id for c in inst.children] != [ids[k - 1] for k in st["kids"][i - 1]]:
+            bad.append(("registered-node-changed:caller-keeps-only-the-id", f"node {i}"))
+    return bad[:3]
 
 
 # ------------------------------------------------------------------ code -> spec on EML trees
